@@ -29,4 +29,23 @@ theorem every_enum_decodes_to_standard_name :
   simp only [Bool.not_true, Bool.false_or] at this
   exact decodesStdB_sound registry_ordered this
 
+/-- the marker index lists one flag list per table of the index, under the same id keys, in the same order, each of the
+    length of its table -/
+theorem marker_index_parallel :
+    Gen.markerIndex.map (fun x => (x.1, x.2.length)) = Gen.tableIndex.map (fun x => (x.1, x.2.2.2.length)) := by
+  decide +kernel
+
+/-- C17, range-marker rule, for every ENUM_* dictionary (incl. the per-machine compositions built by structs.py):
+    a code for which the table knows a real (non-marker) name is never reported under a range marker sharing its
+    value (`DT_FILTER` / `DT_HIPROC` = 0x7fffffff …) -/
+theorem every_enum_no_marker_shadow :
+    ∀ k id T, (k, id, true, T) ∈ Gen.tableIndex →
+      ∃ ms M, findMarkers k Gen.markerIndex = some ms ∧ attachMarkers T ms = some M ∧ NoMarkerShadow M := by
+  have h : Gen.tableIndex.all (fun x => !x.2.2.1 || markerCheckB x.1 x.2.2.2) = true := by
+    decide +kernel
+  intro k id T hm
+  have := List.all_eq_true.mp h _ hm
+  simp only [Bool.not_true, Bool.false_or] at this
+  exact markerCheckB_elim this
+
 end PyElf.Props.C17All
